@@ -234,9 +234,11 @@ fn generate(rng: &mut Rng) -> ConnScenario {
     let services = Services {
         status: Script::always(
             Some(0),
-            match rng.below(3) {
+            match rng.below(5) {
                 0 => StatusRes::None,
                 1 => StatusRes::Minimal,
+                // answers around and beyond 16 KiB (the frame length prefix grows to three bytes at 16384)
+                2 => StatusRes::Big { favicon_len: *rng.pick(&[3_000usize, 16_100, 16_300, 20_000, 30_000]), sample: *rng.pick(&[0usize, 1, 12]) },
                 _ => StatusRes::Full { name: "Sim 1.21".into(), online: rng.below(100) as u32, max: 100, description: "hello \"world\"".into() },
             },
         ),
@@ -316,6 +318,7 @@ fn generate(rng: &mut Rng) -> ConnScenario {
         client,
         wplan: vec![],
         cap_ns: secs(120),
+        prelude: vec![],
     };
     zero_time_noise(rng, &mut sc);
     // whole scripts in one burst: every frame is in the pipe before the server reads the first
